@@ -26,6 +26,7 @@ from .n0struct_files import (
 
 from .n0struct_utils import n0eval
 from .n0struct_utils_find import split_name_index
+from .n0struct_utils_find import n0hidden_list
 
 from .n0struct_n0list_ import n0list_
 from .n0struct_n0dict_ import n0dict_
@@ -1149,8 +1150,9 @@ class n0dict(n0dict_):
             # ..................................................................
             elif node_index == "*":
                 if not isinstance(parent_node, (list, tuple)):
-                    # Hidden list. Convert single item into list
-                    parent_node = [parent_node]
+                    # Hidden list. Convert single item into list (such list doesn't exist in the structure,
+                    # nothing could be stored into it)
+                    parent_node = n0hidden_list((parent_node,))
                 cur_values = n0list()
                 fst_parent_node = fst_node_name_index = fst_value = fst_found_xpath_str = None
                 for i, cur_node in enumerate(parent_node):
@@ -1245,8 +1247,10 @@ class n0dict(n0dict_):
                 if isinstance(parent_node, (list, tuple)):
                     len__parent_node = len(parent_node)
                 else:
+                    # Hidden list: the single item is read as a list of this one item (such list doesn't exist
+                    # in the structure, nothing could be stored into it; __setitem__ looks for the place of the item itself)
                     len__parent_node = 1
-                    parent_node = [parent_node]
+                    parent_node = n0hidden_list((parent_node,))
 
                 if node_index_int >= len__parent_node or node_index_int < -len__parent_node:
                     #--------------------------------
@@ -1390,8 +1394,8 @@ class n0dict(n0dict_):
                     next_node = parent_node[-1]
                     # item[0] == None, will be reused at the next step with last()
                     next_node_name_index = "[last()]"
-            # New fix
-            elif n0eval(cur_node_index) == len(parent_node):
+            # New fix (only for a list of the structure: nothing could be added to a hidden list)
+            elif not isinstance(parent_node, n0hidden_list) and n0eval(cur_node_index) == len(parent_node):
                 parent_node.append(None)
                 next_node = parent_node
                 next_node_name_index = "[last()]"
